@@ -155,10 +155,12 @@ pub fn catalogue(thorough: bool) -> Value {
     }
 
     // a receiver that stamps its frames with its own (GNSS) clock, and that clock disagrees with the arrival times: the
-    // two reports below arrive 10.6 s apart (too far to pair; the aircraft has flown 3.3 km) while the receiver's stamps
+    // two reports below arrive 19 s apart (too far to pair) while the receiver's stamps
     // put them 0.5 s apart. The stamps are receiver data; what is decoded must follow the record's own time.
     {
-        let at = |t: f64| (44.0, 2.0 + 600.0 / 3600.0 * t / 60.0 / 44.0f64.to_radians().cos());
+        // due north at 700 kt: in the 19 s between the two reports the aircraft flies 3.7 NM, more than the even / odd
+        // zone arithmetic tolerates (about 3 NM), so pairing them puts the aircraft one latitude zone (about 670 km) away
+        let at = |t: f64| (47.99 + 700.0 / 3600.0 * t / 60.0, 2.0);
         let mk = |k: usize, dt: f64, t_true: f64, gnss: f64, odd: bool| {
             let (la, lo) = at(t_true);
             let (yz, xz, _) = encode(la, lo, odd, false);
@@ -167,7 +169,7 @@ pub fn catalogue(thorough: bool) -> Value {
             e["gnss"] = json!(gnss);
             e
         };
-        let events = vec![mk(0, 0.0, 0.0, 0.0, false), mk(1, 10.6, 10.6, 0.5, true), mk(2, 0.4, 11.0, 0.9, false), mk(3, 0.4, 11.4, 1.3, true)];
+        let events = vec![mk(0, 0.0, 0.0, 0.0, false), mk(1, 19.0, 19.0, 0.5, true), mk(2, 0.4, 19.4, 0.9, false), mk(3, 0.4, 19.8, 1.3, true)];
         scenarios.push(json!({"name": "gnss-clock:Q", "group": "positions-slow", "sensors": sensors, "options": plain, "events": events}));
     }
 
@@ -290,6 +292,6 @@ pub fn catalogue(thorough: bool) -> Value {
             "options": {"dedup_ms": w, "df_filter": null, "aircraft_filter": null, "via": "cli", "rest": false},
             "expect_merged": merged, "window_s": w as f64 / 1000.0, "events": events}));
     }
-    let sentinels: Vec<Value> = (0..400).map(|k| json!(hexs(&sentinel(k)))).collect();
+    let sentinels: Vec<Value> = (0..1000).map(|k| json!(hexs(&sentinel(k)))).collect();
     json!({"sensors": sensors, "sentinel_icao24": "00beef", "sentinels": sentinels, "scenarios": scenarios})
 }
